@@ -114,6 +114,15 @@ def static_tie():
     return problems
 
 
+def state_lookup_guarded():
+    """Does the Colang 1.0 branch of _get_events_for_messages take `state` into account (no implicit-cache lookup with a state object)?"""
+    fn = find_def(parse(RAILS), "_get_events_for_messages", "LLMRails")
+    first_if = next((n for n in fn.body if isinstance(n, ast.If)), None)
+    if first_if is None:
+        return False
+    return any(isinstance(n, ast.Name) and n.id == "state" for st in first_if.body for n in ast.walk(st))
+
+
 PER_REQUEST_VARS = ["generation_options_var", "llm_stats_var", "raw_llm_request"]
 
 
@@ -237,24 +246,31 @@ def worker_init():
 
         async def _acall(self, prompt, stop=None, run_manager=None, **kw):
             r = req_var.get()
-            self.calls.append({"req": r, "prompt": prompt, "temperature": self.temperature, "max_tokens": self.max_tokens, "opts": canon_options(context_mod.generation_options_var.get())})
+            rec = {"req": r, "prompt": prompt, "temperature": self.temperature, "max_tokens": self.max_tokens, "opts": canon_options(context_mod.generation_options_var.get())}
+            self.calls.append(rec)
+            ptrace.append(["call", r, {"temperature": self.temperature, "max_tokens": self.max_tokens}])
             d = self.lat.get(r, 0)
             if d:
                 await asyncio.sleep(d)
+            # a provider may read its attributes at any time while the call is in flight (retries, streaming): read again at the end
+            rec["temperature_end"] = self.temperature
             if self.fail.get(r):
                 raise RuntimeError("scripted LLM failure")
             return self._answer(prompt)
 
     sections = []
+    ptrace = []  # the observed label sequence of the LLMParams transition system: enter (with altered_params) / call / exit
 
     class RecordingParams(params_mod.LLMParams):
         def __enter__(self):
             sections.append(("enter", req_var.get()))
+            ptrace.append(["enter", req_var.get(), dict(self.altered_params)])
             return super().__enter__()
 
         def __exit__(self, *a):
             r = super().__exit__(*a)
             sections.append(("exit", req_var.get()))
+            ptrace.append(["exit", req_var.get(), None])
             return r
 
     params_mod.register_param_manager(PureLLM, RecordingParams)
@@ -290,13 +306,15 @@ def worker_init():
 
     key_used = getattr(rails_mod, "get_events_history_cache_key", None)
     _ENV.update(
-        LLMRails=LLMRails, RailsConfig=RailsConfig, PureLLM=PureLLM, req_var=req_var, sections=sections,
+        LLMRails=LLMRails, RailsConfig=RailsConfig, PureLLM=PureLLM, req_var=req_var, sections=sections, ptrace=ptrace,
         VirtualLoop=VirtualLoop, GenerationOptions=GenerationOptions, rails_mod=rails_mod, utils_mod=utils_mod, params_mod=params_mod,
         key_asis=utils_mod.get_history_cache_key,
         key_used=key_used or rails_mod.get_history_cache_key,
         which="lp" if key_used is not None else "asis",
         # "repaired" = fixes/C15-llm-params-overlap.diff is in the tree (per-LLM registry of open sections + llm_for_call)
         pmode="repaired" if hasattr(params_mod, "llm_for_call") else "asis",
+        # fixes/C15-no-cache-lookup-with-state.diff in the tree: the Colang 1.0 branch of _get_events_for_messages looks at `state`
+        statefix=state_lookup_guarded(),
     )
 
 
@@ -549,7 +567,10 @@ def g_events_case(rng):
         n += 1
         cache.append({"hist": copy.deepcopy(msgs), "ev": [["OP", n]]})  # the full request is never looked up
     rng.shuffle(cache)
-    return {"kind": "events", "msgs": msgs, "cache": cache}
+    case = {"kind": "events", "msgs": msgs, "cache": cache}
+    if rng.random() < 0.25:
+        case["state"] = True  # the request carries an explicit state object: the implicit cache must not be consulted
+    return case
 
 
 def T(*parts):
@@ -684,6 +705,8 @@ def g_params_case(rng):
     for _ in range(nm):
         pool = known if (strict and known) else names
         ks = rng.sample(pool, rng.randrange(1, min(3, len(pool)) + 1))
+        if rng.random() < 0.12:
+            ks = []  # a section without parameters (a request without options: `llm_params(llm, **{})`)
         managers.append({str(k): rng.choice([None, 10, 11, 12, 13]) for k in ks})
     mode = rng.choice(["sequential", "nested", "random", "random"])
     sched = []
@@ -847,10 +870,10 @@ def run_events(case):
         keys.append(kk)
         cache[kk] = [{"type": "Opaque", "n": e[1]} for e in ent["ev"]]
     stub = types.SimpleNamespace(config=types.SimpleNamespace(colang_version="1.0"), events_history_cache=cache)
-    obs = {"which": E["which"], "keys": keys, "pairs": pairs(case["msgs"])}
+    obs = {"which": E["which"], "keys": keys, "pairs": pairs(case["msgs"]), "statefix": E["statefix"]}
     obs["pkeys"] = [_key(E["key_used"], case["msgs"][:p]).get("key") for p in range(1, len(case["msgs"]))]
     try:
-        evs = E["LLMRails"]._get_events_for_messages(stub, copy.deepcopy(case["msgs"]), None)
+        evs = E["LLMRails"]._get_events_for_messages(stub, copy.deepcopy(case["msgs"]), {"events": []} if case.get("state") else None)
         obs["events"] = canon_events(evs)
     except Exception as e:  # noqa
         obs["exc"] = type(e).__name__
@@ -1016,6 +1039,44 @@ def run_convs(case):
 
     shared = run_coro(shared_run())
     return {"which": E["which"], "iso": iso, "shared": shared, "final_temp": llm.temperature, "final_maxtok": llm.max_tokens}
+
+
+CONC_PARAMS = {"temperature": 0, "max_tokens": 1}
+
+
+def _pint(name, v):
+    return int(round(v * 10)) if name == "temperature" else int(v)
+
+
+def conc_trace(obs):
+    """The label sequence observed on the virtual-time loop (sections opened / closed by the real LLMParams of every request,
+    the moments the provider read the parameters) as a schedule of the Lean transition system `ParamsR.runR`: one section id per
+    `with llm_params(...)` instance (the sections of a request are sequential code: LIFO per request), owner = the request."""
+    alts, owners, trace, stack, calls = [], [], [], collections.defaultdict(list), []
+    for act, r, info in obs.get("ptrace") or []:
+        if r is None:
+            return None
+        if act == "enter":
+            if any(k not in CONC_PARAMS or v is None for k, v in info.items()):
+                return None
+            sid = len(alts)
+            alts.append([[CONC_PARAMS[k], _pint(k, v)] for k, v in info.items()])
+            owners.append(r)
+            stack[r].append(sid)
+            trace.append([sid, "enter"])
+        elif act == "exit":
+            if not stack[r]:
+                return None
+            trace.append([stack[r].pop(), "exit"])
+        else:
+            if not stack[r]:
+                return None
+            trace.append([stack[r][-1], "call"])
+            calls.append([[0, _pint("temperature", info["temperature"])], [1, _pint("max_tokens", info["max_tokens"])]])
+    if any(stack.values()):
+        return None
+    cfg = [[0, _pint("temperature", CONFIGURED_TEMP)], [1, CONFIGURED_MAX_TOKENS]]
+    return {"req": {"cfg": cfg, "alts": alts, "owners": owners, "trace": trace, "universe": [0, 1]}, "calls": calls}
 
 
 def params_owner(case):
@@ -1185,7 +1246,7 @@ def run_conc(case):
         return rails, llm
 
     def calls_of(llm, i):
-        return [{"prompt": c["prompt"], "temperature": c["temperature"]} for c in llm.calls if c["req"] == i]
+        return [{"prompt": c["prompt"], "temperature": c["temperature"], "temperature_end": c.get("temperature_end", c["temperature"])} for c in llm.calls if c["req"] == i]
 
     iso = []
     for i, r in enumerate(reqs):
@@ -1199,6 +1260,7 @@ def run_conc(case):
         iso.append({"out": out, "calls": calls_of(llm, i), "final_temp": llm.temperature})
     rails, llm = setup(range(len(reqs)))
     del E["sections"][:]
+    del E["ptrace"][:]
 
     async def together():
         tasks = [asyncio.ensure_future(one(rails, i, r)) for i, r in enumerate(reqs)]
@@ -1206,7 +1268,7 @@ def run_conc(case):
 
     outs = run_coro(together(), virtual=True)
     shared = [{"out": outs[i], "calls": calls_of(llm, i)} for i in range(len(reqs))]
-    return {"iso": iso, "shared": shared, "final_temp": llm.temperature, "sections": [list(s) for s in E["sections"]], "pmode": E["pmode"]}
+    return {"iso": iso, "shared": shared, "final_temp": llm.temperature, "sections": [list(s) for s in E["sections"]], "pmode": E["pmode"], "ptrace": copy.deepcopy(E["ptrace"])}
 
 
 def prog_ids(prog):
@@ -1301,7 +1363,8 @@ def model_requests(case, obs):
             return []
         # dict semantics: a later entry under the same key replaces the earlier one -> newest first for the model
         cache = [[kk, ent["ev"]] for kk, ent in zip(obs["keys"], case["cache"])][::-1]
-        return [{"m": "C15.events", "which": obs["which"], "msgs": obs["pairs"], "cache": cache},
+        return [{"m": "C15.events", "which": obs["which"], "msgs": obs["pairs"], "cache": cache,
+                 "state": bool(case.get("state")), "statefix": bool(obs.get("statefix"))},
                 {"m": "C15.convert", "tails": [obs["pairs"][p:] for p in range(len(obs["pairs"]))]}]
     if k == "serve":
         if any("exc" in st for steps in obs["iso"] + [obs["shared"]] for st in steps):
@@ -1315,6 +1378,9 @@ def model_requests(case, obs):
         if any(st is None for st in obs["shared"]):
             return []
         return [{"m": "C15.ctxprog", "which": "set", "prog": _prog_json(case["prog"], obs)}]
+    if k == "conc" and obs.get("pmode") == "repaired":
+        tr = conc_trace(obs)
+        return [] if tr is None else [dict(tr["req"], m="C15.paramsR")]
     if k == "params" and obs.get("pmode") == "repaired":
         # the abstract transition system of the repaired LLMParams (every parameter exists on the object)
         if "exc" in obs or not all_present(case):
@@ -1399,6 +1465,16 @@ def compare(case, obs, mouts):
             if got != exp.get(i, []):
                 return f"request {i}: generation options seen by its LLM calls {got} (index of the owning request), model of the prologue says {exp.get(i, [])}"
         return None
+    if k == "conc" and obs.get("pmode") == "repaired":
+        if not mouts:
+            return None
+        tr, m = conc_trace(obs), mouts[0]
+        mcalls = [v for _, v in m["calls"]]
+        if mcalls != tr["calls"]:
+            return f"observed schedule {tr['req']['trace']}: parameters read by the LLM calls {tr['calls']}, transition system {mcalls}"
+        if m["open"] or m["store"] != tr["req"]["cfg"]:
+            return f"observed schedule: transition system ends with open sections {m['open']} / object {m['store']}"
+        return None
     if k == "params" and obs.get("pmode") == "repaired":
         if not mouts:
             return None
@@ -1477,6 +1553,12 @@ def oracle(case, obs):
         # reference: the longest proper prefix for which events were stored for exactly that history (last writer wins)
         msgs = obs["pairs"]
         exp_ev, p0 = [], 0
+        if case.get("state"):
+            # an explicit state object carries the events of its own conversation: nothing stored for ANY history is used
+            exp = conv_tail(msgs)
+            if obs["events"] != exp:
+                return f"request with a state object: events should be the conversion of its messages {exp}, got {obs['events']} (events stored in the implicit cache were used)"
+            return None
         for p in range(len(msgs) - 1, 0, -1):
             ent = [e for e in case["cache"] if pairs(e["hist"]) == msgs[:p]]
             if ent:
@@ -1581,6 +1663,8 @@ def oracle(case, obs):
             for c in s["calls"]:
                 if c["temperature"] != exp_t:
                     return f"request {i}: LLM call ran with temperature {c['temperature']} instead of {exp_t}"
+                if c.get("temperature_end", exp_t) != exp_t:
+                    return f"request {i}: while its LLM call was in flight the temperature on the object it was made on became {c['temperature_end']} instead of {exp_t}"
             if s["out"] != ref["out"]:
                 return f"request {i}: result differs from the isolated replay: {json.dumps(s['out'])[:200]} vs {json.dumps(ref['out'])[:200]}"
             if [c["prompt"] for c in s["calls"]] != [c["prompt"] for c in ref["calls"]]:
@@ -1620,6 +1704,9 @@ def signature(case, obs, msg):
         # a look-alike entry (different history, same key as a proper prefix of the request) is in the cache
         msgs = obs.get("pairs") or []
         keys = obs.get("keys") or []
+        if case.get("state"):
+            hit = any(kp is not None and kp in keys for kp in (obs.get("pkeys") or []))
+            return "state-request-reads-implicit-cache" if hit and not obs.get("statefix") else None
         for p, kp in zip(range(1, len(msgs)), obs.get("pkeys") or []):
             for ent, kk in zip(case["cache"], keys):
                 if kp is not None and kk == kp and pairs(ent["hist"]) != msgs[:p]:
